@@ -438,3 +438,86 @@ func c18KeyDeriv(r *mon.R, idx int) {
 		}
 	}
 }
+
+// c18EdDecodeAgreement: the four Ed25519 implementations must treat the same 32 input bytes alike - all accept or all
+// refuse, and what they accept re-encodes to the same bytes. Inputs are the classes on which decoders differ in practice:
+// non-canonical y (p..p+18, both signs), x = 0 with the sign bit set, small-order points, y in {0, 1, p-1}, random strings.
+func c18EdDecodeAgreement(r *mon.R, idx int) {
+	rng := gen.New(r.Seed, "C18eddecode", idx)
+	type in struct {
+		b     []byte
+		class string
+	}
+	var ins []in
+	le := func(v *big.Int, sign bool) []byte {
+		b := c18LE32(v)
+		if sign {
+			b[31] |= 0x80
+		}
+		return b[:]
+	}
+	for k := int64(0); k <= 18; k++ {
+		y := new(big.Int).Add(ref.EdP, big.NewInt(k))
+		ins = append(ins, in{le(y, false), "y>=p"}, in{le(y, true), "y>=p,sign"})
+	}
+	for _, y := range []*big.Int{big.NewInt(0), big.NewInt(1), new(big.Int).Sub(ref.EdP, big.NewInt(1))} {
+		ins = append(ins, in{le(y, false), "y-special"}, in{le(y, true), "x=0-with-sign-bit-or-special"})
+	}
+	for _, t := range c18EdTorsion() {
+		e := ref.EdEncode(t)
+		ins = append(ins, in{e, "small-order"})
+		f := append([]byte(nil), e...)
+		f[31] ^= 0x80
+		ins = append(ins, in{f, "small-order,sign-flipped"})
+	}
+	for i := 0; i < 40; i++ {
+		ins = append(ins, in{rng.Bytes(32), "random"})
+	}
+	for i := 0; i < 10; i++ {
+		ins = append(ins, in{ref.EdEncode(c18EdRandomPoint(rng)), "canonical"})
+	}
+	ms := c18EdMachines()
+	for _, x := range ins {
+		type out struct {
+			ok  bool
+			enc []byte
+			msg string
+		}
+		outs := make([]out, len(ms))
+		for i, m := range ms {
+			i, m := i, m
+			if p, bad := mon.Try(func() {
+				pt := m.point(0)
+				if err := pt.UnmarshalBinary(append([]byte(nil), x.b...)); err != nil {
+					outs[i].msg = err.Error()
+					return
+				}
+				outs[i].ok = true
+				outs[i].enc = c18Enc(pt)
+			}); bad {
+				outs[i].msg = "panic: " + p
+				r.Violation("C18/ed25519/"+m.name+"/decode-untrusted/"+x.class+"/panic", "panic while decoding: "+p, map[string]any{"input": mon.Hex(x.b), "machine": m.name})
+			}
+		}
+		det := func() map[string]any {
+			d := map[string]any{"input": mon.Hex(x.b), "class": x.class}
+			for i, m := range ms {
+				if outs[i].ok {
+					d[m.name] = "accepted, re-encodes to " + mon.Hex(outs[i].enc)
+				} else {
+					d[m.name] = "refused: " + outs[i].msg
+				}
+			}
+			return d
+		}
+		for i := 1; i < len(ms); i++ {
+			r.Eval("ed25519/decode-untrusted/"+x.class, fmt.Sprintf("%s|%x", ms[i].name, x.b), true)
+			r.Op(ms[i].name + ":UnmarshalBinary(untrusted)")
+			if outs[i].ok != outs[0].ok {
+				r.Violation("C18/ed25519/"+ms[i].name+"-vs-"+ms[0].name+"/decode-untrusted/"+x.class+"/accept-refuse-differs", "the implementations disagree on whether these 32 bytes encode a point", det())
+			} else if outs[i].ok && !bytes.Equal(outs[i].enc, outs[0].enc) {
+				r.Violation("C18/ed25519/"+ms[i].name+"-vs-"+ms[0].name+"/decode-untrusted/"+x.class+"/re-encoding-differs", "the implementations decode the same bytes to different points", det())
+			}
+		}
+	}
+}
